@@ -50,12 +50,14 @@ def eval_tree(ctx, tree, on_node=None, *, prop, exc_is_violation=True, allow=(Va
     return root, values
 
 
-def run_trees(ctx, per_case, *, depth=(1, 4), arbitrary=False, hostile_p=0.3, closure_p=0.5, scale=1.0):
+def run_trees(ctx, per_case, *, depth=(1, 4), arbitrary=False, hostile_p=0.3, closure_p=0.5, scale=1.0,
+              large=(4, 60, 120)):
     """Generate and evaluate trees; per_case(tree, pool) does the work of one case."""
     n, secs = BUDGET[ctx.tier]
     n = int(n * scale)
     rnd = ctx.rnd
     closure: list = []
+    ctx.stratum = "trees"
     t_start = ctx.elapsed()
     secs = secs * min(1.0, max(0.3, scale * 2))
     for i in range(n):
@@ -77,6 +79,25 @@ def run_trees(ctx, per_case, *, depth=(1, 4), arbitrary=False, hostile_p=0.3, cl
                 closure.append(tree)
                 if len(closure) > 200:
                     closure.pop(rnd.randrange(len(closure)))
+    # large trees: unions of 20-80 ranges, long folds (sizes the random generator never reaches)
+    if not large:
+        ctx.current_case = None
+        return
+    ctx.stratum = "large-trees"
+    n_large = large[0] if ctx.tier == "quick" else large[1]
+    t_large = ctx.elapsed()
+    done = 0
+    for i in range(n_large):
+        if ctx.elapsed() - t_large > (10 if ctx.tier == "quick" else 90):
+            break
+        tree = W.large_tree(rnd, large[2], shape=-1 if i == 0 else (8 if i == 1 else (i + ctx.shard + ctx.seed) % 9))
+        ctx.cases += 1
+        ctx.current_case = {"kind": "tree", "tree": tree}
+        ok, _ = ctx.guarded(30.0 if ctx.tier == "quick" else 120.0, per_case, tree, None)
+        done += bool(ok)
+    ctx.extra["large_trees"] = ctx.extra.get("large_trees", 0) + done
+    ctx.shape("workload:large-tree", done)
+    ctx.stratum = "-"
     ctx.current_case = None
 
 
